@@ -51,6 +51,13 @@ def scenario(seed, sid, n_steps=30, p_fault=0.35, restart=False, async_p=0.15, t
                 n += 1
                 lab = "%so%d" % (strat.lower(), n)
                 a = {"op": "place", "o": lab, "sel": rnd.choice([11, 12]), "side": rnd.choice(["BACK", "LAY"]), "price": rnd.choice([2.0, 2.2, 3.0]), "size": rnd.choice([2.0, 5.0, 3.0])}
+                z = rnd.random()
+                if z < 0.08:        # starting-price orders: size = liability
+                    a["type"] = "LIMIT_ON_CLOSE"
+                    a["size"] = rnd.choice([10.0, 13.0, 20.0])
+                elif z < 0.14:
+                    a["type"] = "MARKET_ON_CLOSE"
+                    a["size"] = rnd.choice([10.0, 13.0])
                 if rnd.random() < 0.3 and orders:
                     a["t"] = "t_" + rnd.choice(orders)[0]
                 if rnd.random() < async_p:
@@ -112,6 +119,13 @@ def scenario(seed, sid, n_steps=30, p_fault=0.35, restart=False, async_p=0.15, t
             steps += [{"op": "book", "mid": "1.2", "k": 1}, {"op": "close", "mid": "1.2"}]
             if rnd.random() < 0.7:
                 steps += [{"op": "advance", "seconds": rnd.choice([1000, 3800, 4000])}, {"op": "book", "mid": "1.2", "k": 2}, {"op": "close", "mid": "1.2"}]
+    if rnd.random() < 0.35:
+        # bets of another program / of a strategy that is not configured, some on a market this instance never saw
+        steps.insert(rnd.randrange(1, len(steps)), {"op": "foreign", "mid": rnd.choice(["1.1", "1.3"]), "sel": rnd.choice([11, 12])})
+        steps += [{"op": "snap"}, {"op": "proc", "i": -1}]
     if restart:
-        steps.append({"op": "restart"})
+        r = {"op": "restart"}
+        if two_strategies and rnd.random() < 0.5:
+            r["strategies"] = ["A"]          # the restarted program no longer runs B: its bets are foreign now
+        steps.append(r)
     return {"id": sid, "strategies": [{"name": nm} for nm in names], "steps": steps, "seed": seed}
